@@ -798,6 +798,22 @@ def _encoded_ragged(ip, args, kwargs, lineno):
     return make_ragged(ip, data, shape, enc, lineno)
 
 
+@func_model("npstructures.util.unsafe_extend_right")
+def _uer(ip, args, kwargs, lineno):
+    M.use("npstructures.util.unsafe_extend_right(a) = a followed by one zero element")
+    a = args[0]
+    f = a.snapshot()
+    return SArr.fresh(conc(I(a.length) + 1), lambda i: Ite(I(i) < I(a.length), f(i), 0), a.kind, a.enc)
+
+
+@func_model("npstructures.util.unsafe_extend_left")
+def _uel(ip, args, kwargs, lineno):
+    M.use("npstructures.util.unsafe_extend_left(a) = one zero element followed by a")
+    a = args[0]
+    f = a.snapshot()
+    return SArr.fresh(conc(I(a.length) + 1), lambda i: Ite(I(i) == 0, 0, f(I(i) - 1)), a.kind, a.enc)
+
+
 @class_model("npstructures.raggedarray.RaggedArray")
 def _ragged(ip, args, kwargs, lineno):
     return make_ragged(ip, args[0], args[1], None, lineno)
